@@ -107,7 +107,12 @@ func peach(fm *Frame, opts peachOpt, f Callable, inputs Inputs) error {
 			return
 		}
 		if workerSema != nil {
-			workerSema.Acquire(ctx, 1)
+			if workerSema.Acquire(ctx, 1) != nil {
+				// The context was canceled while waiting for a free worker;
+				// don't start any more callbacks.
+				atomic.StoreInt32(&broken, 1)
+				return
+			}
 		}
 		wg.Add(1)
 		go func() {
